@@ -561,6 +561,48 @@ def name_flavour_rule(chk, P, key, doc, select, families, module_stems, floor):
     chk.ob(key, doc, f)
 
 
+def wrapper_family_rule(chk, P, prefix, trait, floor, allow=None, check_return=True, synonyms=None):
+    """Sibling agreement for the wrappers and bridges of one trait (&T, Box<T>, Arc<T>, Option<T>, AssertInternal<T>, dyn Erased..):
+    (1) every one of them defines every method any of them defines - a wrapper that leaves one to the trait's default silently replaces the
+    wrapped value's own implementation of it by the default (`allow` lists (self type prefix, method) pairs with a reason);
+    (2) each such method forwards to the same-named inner method exactly once."""
+    allow = allow or {}
+    ws = [i for i in P.impls if i.get("trait") == trait and is_wrapper_self(i.get("self_ty") or "")]
+
+    def complete():
+        if len(ws) < floor:
+            raise mir.AnchorMissing("wrapper impls of %s (found %d, expected >= %d)" % (trait, len(ws), floor))
+        union = set()
+        for i in ws:
+            union |= {it["name"] for it in i.get("items", ()) if it.get("kind") == "Fn"}
+        ev = []
+        for i in ws:
+            have = {it["name"] for it in i.get("items", ()) if it.get("kind") == "Fn"}
+            for m in sorted(union - have):
+                row = [k for k in allow if (i.get("self_ty") or "").startswith(k[0]) and k[1] == m]
+                if row:
+                    ev.append("%s leaves %s to the default: %s" % (i["self_ty"], m, allow[row[0]]))
+                    continue
+                return False, ("`impl %s for %s` does not define `%s`, which its sibling wrappers forward: through this wrapper the wrapped value's own "
+                               "`%s` is replaced by the trait's default" % (trait.rsplit("::", 1)[-1], i["self_ty"], m, m)), [], i.get("span")
+        return True, "", ["%d wrappers x %d methods" % (len(ws), len(union))] + ev
+    chk.ob("%s.family:%s:complete" % (prefix, trait.rsplit("::", 1)[-1]), "every wrapper of the trait defines every method its siblings forward", complete)
+    for b in P.find(trait=trait):
+        if b.is_closure or not is_wrapper_self(b.self_ty or "") or (b.self_ty or "").startswith("core::option::Option"):
+            continue
+        cr = check_return and not (b.self_ty or "").startswith("(dyn")
+
+        def fw(b=b, cr=cr):
+            r = forward_check(b, check_return=cr)
+            if not r[0]:
+                for alt in (synonyms or {}).get(b.method, ()):
+                    r2 = forward_check(b, name=alt, check_return=False)
+                    if r2[0]:
+                        return r2
+            return r
+        chk.ob("%s.family:%s" % (prefix, b.key), "a wrapper method forwards to the same-named inner method exactly once", fw, loc=b.span)
+
+
 def pull_overrides_rule(chk, P, key):
     """A typed lookup is the untyped lookup followed by a cast - on every collection that is not a pure forwarder.  An override of
     Props::pull that asks its *parts* for typed values makes a failed cast look like a missing key: the lookup goes on to a later,
